@@ -237,3 +237,95 @@ func HarnessC01StepBoundary() {
 	}
 	vReach("end")
 }
+
+// ---- lazily started profiles: the engine never calls Start, the first Next() starts the
+// profile at the instant it is called ("now", bracketed by the clock readings around the call).
+
+// a leaf profile (const / line / once), possibly without any token.
+func HarnessC01LazyLeaf() {
+	kind := vNondetInt("kind", 0, 2)
+	dur := c01Dur()
+	t0 := vNondetTime("t0")
+	var sch core.Schedule
+	switch kind {
+	case 0:
+		sch = NewConst(vNondetRatio("ops", 0, 1600, 16), dur)
+	case 1:
+		from := vNondetRatio("from", 0, 1600, 16)
+		to := vNondetRatio("to", 0, 1600, 16)
+		vAssume(from != to)
+		sch = NewLine(from, to, dur)
+	default:
+		sch = NewOnce(vNondetInt("n", 0, 3))
+		dur = 0
+	}
+	s := sch.(*doAtSchedule)
+	vObserve("n", s.n)
+	vSetClock(vTimeNs(t0))
+	before := vClock()
+	tx, ok := sch.Next()
+	after := vClock()
+	if s.n == 0 {
+		vCheck("lazy.empty.notok", !ok)
+		vCheck("lazy.empty.finish.lo", vTimeNs(tx) >= before+int64(dur))
+		vCheck("lazy.empty.finish.hi", vTimeNs(tx) <= after+int64(dur))
+		vReach("empty")
+	} else {
+		vCheck("lazy.token.ok", ok)
+		vCheck("lazy.token.not.before.start", vTimeNs(tx) >= before)
+		vCheck("lazy.token.not.after.end", vTimeNs(tx) <= after+int64(dur))
+		vReach("token")
+	}
+	// the finish time of the drained profile is start+duration as well
+	s.i.Store(s.n)
+	fin, ok2 := sch.Next()
+	vCheck("lazy.drained.notok", !ok2)
+	vCheck("lazy.drained.finish.lo", vTimeNs(fin) >= before+int64(dur))
+	vCheck("lazy.drained.finish.hi", vTimeNs(fin) <= after+int64(dur))
+}
+
+// a step profile whose first levels may be empty (from = 0, or rate*duration < 1), and the
+// "pause, then load" list [const 0 ops for dur, once n]: the first token comes j*dur after the
+// lazy start, j = index of the first level holding a token.
+func HarnessC01LazyStep() {
+	dur := c01Dur()
+	t0 := vNondetTime("t0")
+	var sch core.Schedule
+	var counts, durs []int64
+	if vNondetBool("pauseThenLoad") {
+		n := vNondetInt("n", 0, 3)
+		sch = NewComposite(NewConst(0, dur), NewOnce(n))
+		counts = []int64{0, n}
+		durs = []int64{int64(dur), 0}
+	} else {
+		from := vNondetRatio("from", 0, 160, 16)
+		step := vNondetInt("step", 1, 5)
+		levels := vNondetInt("levels", 2, 3)
+		to := from + float64(step*(levels-1))
+		sch = NewStep(from, to, step, dur)
+		for _, p := range sch.(*compositeSchedule).scheds {
+			counts = append(counts, p.(*doAtSchedule).n)
+			durs = append(durs, int64(dur))
+		}
+		vCheck("lazystep.levels", int64(len(counts)) == levels)
+	}
+	first := int64(len(counts))
+	for j := len(counts) - 1; j >= 0; j-- {
+		if counts[j] > 0 {
+			first = int64(j)
+		}
+	}
+	vObserve("first", first)
+	vSetClock(vTimeNs(t0))
+	before := vClock()
+	tx, ok := sch.Next()
+	after := vClock()
+	off := int64(0) // the parts before the first token (all parts, when there is none) run their full duration
+	for j := int64(0); j < first; j++ {
+		off += durs[j]
+	}
+	vCheck("lazystep.ok.iff.tokens", ok == (first < int64(len(counts))))
+	vCheck("lazystep.time.lo", vTimeNs(tx) >= before+off)
+	vCheck("lazystep.time.hi", vTimeNs(tx) <= after+off)
+	vReach("end")
+}
